@@ -121,12 +121,15 @@ def has_recursion(forest, fns, mutual=False):
     return any(go(c, []) for c in forest)
 
 
-def gen_case(ctx, idx):
+def gen_case(ctx, idx, program=None, kind=None):
     rng = ctx.rng
     tags = []
-    syms, fns = gen_program(rng, tags)
+    if program is None:
+        syms, fns = gen_program(rng, tags)
+    else:
+        syms, fns = program[0], [Fn(a, n) for a, n in program[1]]
     ntask = rng.choice([1, 1, 2, 2, 3, 4])
-    kind = rng.choice(["forest"] * 6 + ["lost", "lost", "suffix", "extra-exit", "overflow"])
+    kind = kind or rng.choice(["forest"] * 6 + ["lost", "lost", "suffix", "extra-exit", "overflow"])
     scale = rng.choice([1] * 8 + [1000, 10 ** 6, 10 ** 9])
     big = ctx.thorough() and rng.random() < 0.1
     max_stack = 1024
@@ -237,7 +240,7 @@ def name_table(case):
     amap = {a: nm(a) for a in addrs}
     allnames = sorted(set(amap.values()) | set(s[3] for s in case["syms"]), key=lambda s: s.encode())
     num = {n: i + 1 for i, n in enumerate(allnames)}
-    return {a: num[n] for a, n in amap.items()}, num
+    return {a: num[n] for a, n in amap.items()}, num, amap
 
 
 # ---------------------------------------------------------------- implementation runs
@@ -382,7 +385,8 @@ Definition truth_ok t := match i_truth t with
 Definition prop_table t := match i_truth t with Some tts => ok_table (c_names (tc t)) tts (i_tbl t) | None => true end.
 Definition prop_sorted t := forallb (fun p => ok_sorted (fst p) (i_tbl t) (snd p)) (i_sorts t).
 Record ecase := mke { ec : case; e_tbl : list node; e_runs : list (list key * list fld * list line);
-                      e_task : list (cell * cell * N); e_truth : option (list ttrace); e_diff0 : list (list cell); e_clean : bool }.
+                      e_task : list (cell * cell * N); e_truth : option (list ttrace); e_diff0 : list (list cell); e_clean : bool;
+                      e_other : option (case * list node * list dline) }.
 Definition e_model_ok t := forallb (fun r => let '(ks, fs, out) := r in lines_eqb (stdout_model ks fs (report (ec t))) out) (e_runs t).
 Definition e_prop_ok t := negb (e_clean t) || forallb (fun r => let '(ks, fs, out) := r in ok_stdout ks fs (e_tbl t) out) (e_runs t).
 Definition e_task_model t := match e_task t with [] => true | l =>
@@ -394,6 +398,10 @@ Definition e_task_prop t := match e_task t, e_truth t with
                                       | [] => ok_cell (top_time (snd p)) (fst (fst (fst p))) && ok_cell (top_time (snd p)) (snd (fst (fst p)))
                                       | _ => true end) (combine l tts) end.
 Definition e_diff_prop t := forallb (forallb (fun c => match c with None => true | _ => false end)) (e_diff0 t).
+Definition e_diff2_model t := match e_other t with None => true
+   | Some (c2, _, out) => dlines_eqb (diff_stdout (report (ec t)) (report c2)) out end.
+Definition e_diff2_prop t := match e_other t with None => true
+   | Some (_, tbl2, out) => ok_diff_stdout (e_tbl t) tbl2 out end.
 """
 
 
@@ -430,7 +438,28 @@ def e2e_option_sets(rng):
     return sets
 
 
-def run_e2e(ctx, objdir, case, d, res, amap, num):
+def nm_of(case, a):
+    rel = a - BASE
+    for sa, sz, _, n in case["syms"]:
+        if sa <= rel < sa + sz:
+            return n
+    return "<%x>" % a
+
+
+def q_dcell(c):
+    """difference cell -> Coq dcell"""
+    if c is None:
+        return "Some (false, 0, 0, 77)"           # a blank is never printed in a diff column
+    if c == ("zero",):
+        return "None"
+    if c[0] == "count":
+        return "None" if c[1] == 0 else "Some (%s, %d, 0, 99)" % (coq.coq_bool(c[1] < 0), abs(c[1]))
+    if len(c) == 4:
+        return "Some (%s, %d, %d, %d)" % (coq.coq_bool(c[0] == "-"), c[1], c[2], c[3])
+    return "Some (false, 0, 0, 77)"
+
+
+def run_e2e(ctx, objdir, case, d, res, amap, num, exe2=None):
     """returns Coq term of the ecase or None"""
     runs = []
     for argv, ks, fs in e2e_option_sets(ctx.rng):
@@ -474,11 +503,31 @@ def run_e2e(ctx, objdir, case, d, res, amap, num):
         ctx.tag("e2e:--diff-self")
     elif res["nodes"]:
         ctx.violation("uftrace report --diff DIR DIR failed (rc=%d)" % rc, {"case": case_json(case), "stderr": err[-800:]}, True)
+    # --diff against another data set of the same program (model: pairing by name, order by |difference of Total|)
+    other = "None"
+    if case["kind"] == "forest" and exe2:
+        case2 = gen_case(ctx, -1, program=(case["syms"], case["fns"]), kind="forest")
+        d2 = d + ".other"
+        write_case(case2, d2)
+        res2 = run_harness(exe2, d2, [])
+        # both directories must use one name numbering: only when the other one needs no new name
+        _, num2, anames2 = name_table(case2)
+        if res2["ok"] and set(num2) <= set(num):
+            rc, out, err = datadir.uftrace(objdir, "report", d, ["--diff", d2])
+            pr = parse_report(out)
+            if rc == 0 and pr:
+                dl = []
+                for cells, name in pr[1]:
+                    dl.append("(%d, %s)" % (num.get(name, 0), q_list([q_dcell(c) for c in cells])))
+                amap2n = {a: num[n2] for a, n2 in anames2.items()}
+                other = "Some (%s, %s, %s)" % (q_case(case2, amap2n), q_list([q_node(n, num) for n in res2["nodes"]]), q_list(dl))
+                ctx.tag("e2e:--diff-other")
+        shutil.rmtree(d2, ignore_errors=True)
     # LOST markers: the figures of the open calls are whatever the code makes of them (see the report); the
     # printed cells are compared with the model only
-    return "mke (%s) %s %s %s (%s) %s %s" % (q_case(case, amap), q_list([q_node(n, num) for n in res["nodes"]]),
-                                             q_list(runs), q_list(task_lines), q_truth(case), q_list(diff0),
-                                             coq.coq_bool(case["kind"] != "lost"))
+    return "mke (%s) %s %s %s (%s) %s %s (%s)" % (q_case(case, amap), q_list([q_node(n, num) for n in res["nodes"]]),
+                                                  q_list(runs), q_list(task_lines), q_truth(case), q_list(diff0),
+                                                  coq.coq_bool(case["kind"] != "lost"), other)
 
 
 # ---------------------------------------------------------------- json (replay files)
@@ -549,7 +598,7 @@ def explore(ctx, objdir, exe, cases, n_e2e):
     for ci, case in enumerate(cases):
         write_case(case, d)
         res = run_harness(exe, d, gen_keysets(ctx.rng))
-        amap, num = name_table(case)
+        amap, num, _ = name_table(case)
         if not res["ok"]:
             ctx.violation("the report accumulation code failed on a generated data directory (rc=%d): %s"
                           % (res["rc"], res["err"] or res["raw"][-300:]), {"case": case_json(case)}, True)
@@ -558,7 +607,7 @@ def explore(ctx, objdir, exe, cases, n_e2e):
         terms.append(q_tcase(case, res, amap, num))
         kept.append(case)
         if ci < n_e2e:
-            et = run_e2e(ctx, objdir, case, d, res, amap, num)
+            et = run_e2e(ctx, objdir, case, d, res, amap, num, exe2=exe)
             if et:
                 eterms.append(et)
                 ekept.append(case)
@@ -584,7 +633,9 @@ def evaluate(ctx, terms, eterms):
               ("v_stdout", "bad_indices e_prop_ok ecases 0"),
               ("m_task", "bad_indices e_task_model ecases 0"),
               ("v_task", "bad_indices e_task_prop ecases 0"),
-              ("v_diff", "bad_indices e_diff_prop ecases 0")]
+              ("v_diff", "bad_indices e_diff_prop ecases 0"),
+              ("m_diff2", "bad_indices e_diff2_model ecases 0"),
+              ("v_diff2", "bad_indices e_diff2_prop ecases 0")]
     res = coq.run_cases(ctx, "cases", PRE, defs, labels)
     if res is None:
         return None
@@ -597,6 +648,7 @@ WHAT = {
     "v_stdout": "`uftrace report` prints a figure that is not the node's value, or rows out of key order",
     "v_task": "`uftrace report --task`: a task's total is not the summed duration of its top-level calls",
     "v_diff": "`uftrace report --diff` of a data set against itself reports a difference",
+    "v_diff2": "`uftrace report --diff`: a printed difference is not (other - base) of the two node tables",
 }
 MODEL = {
     "m_rows": "per-call rows (report_update_node) differ from the model's task_rows",
@@ -604,6 +656,7 @@ MODEL = {
     "m_sort": "row order differs from the model's sort_nodes",
     "m_stdout": "`uftrace report` stdout differs from the model's stdout_model",
     "m_task": "`uftrace report --task` differs from the model's task_line",
+    "m_diff2": "`uftrace report --diff OTHER` differs from the model's diff_stdout",
 }
 
 
@@ -616,13 +669,13 @@ def verdict(ctx, res, kept, ekept):
                    "(cases %s)" % res["gen_truth"][:5])
     found = False
     for lab, what in WHAT.items():
-        src = ekept if lab in ("v_stdout", "v_task", "v_diff") else kept
+        src = ekept if lab in ("v_stdout", "v_task", "v_diff", "v_diff2") else kept
         for i in res[lab][:2]:
             found = True
             ctx.violation("C08 violated: " + what, {"check": lab, "case": case_json(src[i]), "impl": src[i].get("impl")}, True)
     nm = 0
     for lab, what in MODEL.items():
-        src = ekept if lab in ("m_stdout", "m_task") else kept
+        src = ekept if lab in ("m_stdout", "m_task", "m_diff2") else kept
         nm += len(res[lab])
         if res[lab] and not found:
             i = res[lab][0]
